@@ -300,9 +300,8 @@ def binary_view(case, sample, level=None):
     return (sample.y.astype(str) == level).astype(int)
 
 
-EDIT_STRATEGY = st.lists(
-    st.tuples(st.sampled_from(["group", "group", "replace", "nan", "newcat"]), st.integers(0, 5), st.integers(0, 11), st.booleans()), max_size=3
-)
+EDIT_STEP = st.tuples(st.sampled_from(["group", "group", "replace", "nan", "newcat"]), st.integers(0, 5), st.integers(0, 11), st.booleans())
+EDIT_STRATEGY = st.lists(EDIT_STEP, max_size=3)
 
 
 def apply_edits(obj, case, edits):
